@@ -1,5 +1,523 @@
+// transport.Client / Server / Handle part of the C17 driver: concurrent programs on real objects
+// over loopback UDP (live server, or a bound-but-silent socket = dead peer).
 package main
 
-import "verifharness/hv"
+import (
+	"errors"
+	"fmt"
+	"io"
+	"net"
+	"os"
+	"path/filepath"
+	"runtime"
+	"strings"
+	"sync"
+	"sync/atomic"
+	"time"
 
-func runLifecycle(r *hv.Rand) {}
+	"github.com/sirupsen/logrus"
+
+	"hop.computer/hop/certs"
+	"hop.computer/hop/common"
+	"hop.computer/hop/keys"
+	"hop.computer/hop/transport"
+	"verifharness/hv"
+)
+
+type lifeEnv struct {
+	serverCfg transport.ServerConfig
+	verify    transport.VerifyConfig
+	kp        *keys.X25519KeyPair
+	leaf      *certs.Certificate
+}
+
+func loadLifeEnv() (*lifeEnv, error) {
+	td := filepath.Join(os.Getenv("VERIF_REPO"), "transport", "testdata")
+	if os.Getenv("VERIF_REPO") == "" {
+		td = "/repo/transport/testdata"
+	}
+	keyPair, err := keys.ReadDHKeyFromPEMFile(filepath.Join(td, "leaf-key.pem"))
+	if err != nil {
+		return nil, err
+	}
+	kem, err := keys.ReadKEMKeyFromPEMFile(filepath.Join(td, "kem_hop.pem"))
+	if err != nil {
+		return nil, err
+	}
+	cert, err := certs.ReadCertificatePEMFile(filepath.Join(td, "leaf.pem"))
+	if err != nil {
+		return nil, err
+	}
+	inter, err := certs.ReadCertificatePEMFile(filepath.Join(td, "intermediate.pem"))
+	if err != nil {
+		return nil, err
+	}
+	root, err := certs.ReadCertificatePEMFile(filepath.Join(td, "root.pem"))
+	if err != nil {
+		return nil, err
+	}
+	e := &lifeEnv{}
+	e.serverCfg = transport.ServerConfig{KEMKeyPair: kem, KeyPair: keyPair, Certificate: cert, Intermediate: inter, HandshakeTimeout: 5 * time.Second}
+	e.verify = transport.VerifyConfig{Store: certs.Store{}, CurrentTime: cert.IssuedAt.Add(time.Second)}
+	e.verify.Store.AddCertificate(root)
+	e.kp = keys.GenerateNewX25519KeyPair()
+	e.leaf, err = certs.SelfSignLeaf(&certs.Identity{PublicKey: e.kp.Public})
+	return e, err
+}
+
+// wrapConn lets Close report a chosen error so that "same result to every caller" is observable
+type wrapConn struct {
+	*net.UDPConn
+	closeErr error
+	closes   atomic.Int32
+}
+
+func (w *wrapConn) Close() error {
+	w.closes.Add(1)
+	w.UDPConn.Close()
+	return w.closeErr
+}
+
+var errCloseCustom = errors.New("custom close result")
+
+func lcode(err error) int64 {
+	switch {
+	case err == nil:
+		return 0
+	case err == io.EOF:
+		return 1
+	case errors.Is(err, os.ErrDeadlineExceeded):
+		return 2
+	case err == errCloseCustom:
+		return 7
+	}
+	return 3
+}
+func lstr(r int64) string {
+	switch r {
+	case -1:
+		return "BLOCKED"
+	case 0:
+		return "nil"
+	case 1:
+		return "EOF"
+	case 2:
+		return "timeout"
+	case 7:
+		return "closeErr"
+	case 900:
+		return "PANIC"
+	}
+	return "ioerr"
+}
+
+type lop struct {
+	k   int // 0 Handshake 1 Close 2 ReadMsg 3 WriteMsg
+	ret int64
+	c   int64
+	r   int64
+}
+
+var lopName = []string{"Handshake", "Close", "ReadMsg", "WriteMsg"}
+var lopCoq = []string{"Hs", "Xc", "Rd", "Wr"}
+
+type lprog struct {
+	alive  bool
+	tmo    bool
+	custom bool // Close of the socket reports errCloseCustom
+	ths    [][]lop
+}
+
+func (p lprog) String() string {
+	var ts []string
+	for i, t := range p.ths {
+		var os []string
+		for _, o := range t {
+			os = append(os, lopName[o.k])
+		}
+		ts = append(ts, fmt.Sprintf("T%d:[%s]", i, strings.Join(os, ";")))
+	}
+	return fmt.Sprintf("peer=%v hstimeout=%v customCloseErr=%v %s", map[bool]string{true: "alive", false: "dead"}[p.alive], p.tmo, p.custom, strings.Join(ts, " "))
+}
+
+func genLprog(r *hv.Rand) lprog {
+	p := lprog{alive: r.Chance(60), custom: r.Chance(50)}
+	if !p.alive {
+		p.tmo = r.Chance(50)
+	}
+	nth := 2 + r.Intn(3)
+	p.ths = make([][]lop, nth)
+	total := nth + r.Intn(3)
+	hasClose := false
+	for n := 0; n < total; n++ {
+		i := n
+		if n >= nth {
+			i = r.Intn(nth)
+		}
+		if len(p.ths[i]) >= 2 {
+			continue
+		}
+		k := hv.Pick(r, []int{0, 0, 1, 1, 2, 3, 3})
+		if k == 1 {
+			hasClose = true
+		}
+		p.ths[i] = append(p.ths[i], lop{k: k, ret: -1})
+	}
+	// most programs contain a Close (otherwise dead-peer handshakes and reads block: legitimate
+	// but slow to observe)
+	if !hasClose && r.Chance(85) {
+		i := r.Intn(nth)
+		p.ths[i] = append(p.ths[i], lop{k: 1, ret: -1})
+	}
+	return p
+}
+
+// guard runs f; a panic in the code under test becomes result 900
+func guard(f func() int64) (res int64) {
+	defer func() {
+		if e := recover(); e != nil {
+			notePanic(fmt.Sprint(e))
+			res = 900
+		}
+	}()
+	return f()
+}
+
+// bounded runs f in its own goroutine and waits at most d for it
+func bounded(d time.Duration, f func()) bool {
+	done := make(chan struct{})
+	go func() {
+		defer func() { recover(); close(done) }()
+		f()
+	}()
+	select {
+	case <-done:
+		return true
+	case <-time.After(d):
+		return false
+	}
+}
+
+func lblockedState(st string, ioBusy bool) bool {
+	if i := strings.IndexByte(st, ','); i >= 0 {
+		st = st[:i]
+	}
+	if st == "IO wait" {
+		return !ioBusy
+	}
+	return blockedState(st)
+}
+
+// runClientProgram runs p on a fresh Client. perturb: random yields at the transport hook points.
+func runClientProgram(env *lifeEnv, class string, p lprog, r *hv.Rand) {
+	goBefore := settleGoroutines(0)
+	goBefore = runtime.NumGoroutine()
+	var srv *transport.Server
+	serverPkt, err := net.ListenPacket("udp", "127.0.0.1:0")
+	if err != nil {
+		hv.Info(map[string]interface{}{"life_error": err.Error()})
+		return
+	}
+	serverUDP := serverPkt.(*net.UDPConn)
+	if p.alive {
+		srv, err = transport.NewServer(serverUDP, env.serverCfg)
+		if err != nil {
+			hv.Info(map[string]interface{}{"life_error": err.Error()})
+			return
+		}
+		go srv.Serve()
+	}
+	cu, err := net.DialUDP("udp", nil, serverUDP.LocalAddr().(*net.UDPAddr))
+	if err != nil {
+		hv.Info(map[string]interface{}{"life_error": err.Error()})
+		return
+	}
+	wc := &wrapConn{UDPConn: cu}
+	if p.custom {
+		wc.closeErr = errCloseCustom
+	}
+	cfg := transport.ClientConfig{Verify: env.verify, Exchanger: env.kp, Leaf: env.leaf}
+	if p.tmo {
+		cfg.HSTimeout = 60 * time.Millisecond
+	}
+	cl := transport.NewClient(wc, nil, cfg)
+
+	seed := r.U64()
+	var ctr atomic.Uint64
+	var hsRuns atomic.Int32
+	common.SetVerifYield(func(pt string) {
+		if pt == "cl.hs.run" {
+			hsRuns.Add(1)
+		}
+		if !strings.HasPrefix(pt, "cl.") && !strings.HasPrefix(pt, "h.") {
+			return
+		}
+		x := (ctr.Add(1) + seed) * 0x9E3779B97F4A7C15
+		switch (x >> 33) % 8 {
+		case 0, 1:
+			runtime.Gosched()
+		case 2:
+			time.Sleep(time.Duration((x>>40)%200) * time.Microsecond)
+		}
+	})
+	n := len(p.ths)
+	var wg sync.WaitGroup
+	gids := make([]uint64, n)
+	fin := make([]atomic.Bool, n)
+	var reg sync.WaitGroup
+	start := make(chan struct{})
+	buf := make([][]byte, n)
+	for i := 0; i < n; i++ {
+		buf[i] = make([]byte, 2048)
+		wg.Add(1)
+		reg.Add(1)
+		go func(i int) {
+			defer wg.Done()
+			gids[i] = goid()
+			reg.Done()
+			<-start
+			for j := range p.ths[i] {
+				o := &p.ths[i][j]
+				atomic.StoreInt64(&o.c, stamp.Add(1))
+				res := guard(func() int64 {
+					switch o.k {
+					case 0:
+						return lcode(cl.Handshake())
+					case 1:
+						return lcode(cl.Close())
+					case 2:
+						_, err := cl.ReadMsg(buf[i])
+						return lcode(err)
+					}
+					return lcode(cl.WriteMsg([]byte("hello")))
+				})
+				atomic.StoreInt64(&o.ret, res)
+				atomic.StoreInt64(&o.r, stamp.Add(1))
+			}
+			fin[i].Store(true)
+		}(i)
+	}
+	reg.Wait()
+	close(start)
+	// quiescence: all workers finished or blocked, no progress for a while.  With a live peer a
+	// goroutine in "IO wait" is waiting for the server's answer, so the window is long.
+	t0 := time.Now()
+	var lastStamp int64 = -1
+	var stableSince time.Time
+	window := 250 * time.Millisecond
+	if !p.alive {
+		window = 100 * time.Millisecond
+	}
+	for {
+		all := true
+		for i := 0; i < n; i++ {
+			if !fin[i].Load() {
+				all = false
+			}
+		}
+		if all {
+			break
+		}
+		time.Sleep(2 * time.Millisecond)
+		st := goStates()
+		q := true
+		for i := 0; i < n; i++ {
+			if !fin[i].Load() && !lblockedState(st[gids[i]], false) {
+				q = false
+			}
+		}
+		s := stamp.Load()
+		if !q || s != lastStamp {
+			stableSince = time.Now()
+		}
+		lastStamp = s
+		if q && time.Since(stableSince) > window {
+			break
+		}
+		if time.Since(t0) > 20*time.Second {
+			break
+		}
+	}
+	// snapshot
+	snap := make([][]lop, n)
+	for i := range p.ths {
+		snap[i] = make([]lop, len(p.ths[i]))
+		for j := range p.ths[i] {
+			o := &p.ths[i][j]
+			snap[i][j] = lop{k: o.k, c: atomic.LoadInt64(&o.c), r: atomic.LoadInt64(&o.r), ret: atomic.LoadInt64(&o.ret)}
+			if snap[i][j].r == 0 {
+				snap[i][j].ret = -1
+			}
+		}
+	}
+	runs := hsRuns.Load()
+	common.SetVerifYield(nil)
+	// cleanup (bounded: a Close that hangs is an observation of the run above, not a driver hang)
+	cleanOK := bounded(2*time.Second, func() { cl.Close() })
+	cu.Close()
+	if srv != nil {
+		cleanOK = bounded(2*time.Second, func() { srv.Close() }) && cleanOK
+	}
+	serverUDP.Close()
+	done := make(chan struct{})
+	go func() { wg.Wait(); close(done) }()
+	leaked := false
+	select {
+	case <-done:
+	case <-time.After(time.Second):
+		leaked = true
+	}
+	if !cleanOK {
+		leaked = true
+	}
+	goAfter := settleGoroutines(goBefore)
+
+	// ---- specification oracle
+	v := verdict{true, "", ""}
+	fail := func(sig, what string) {
+		if v.ok {
+			v = verdict{false, sig, what}
+		}
+	}
+	want := int64(0)
+	if p.custom {
+		want = 7
+	}
+	var firstCloseRet int64 = -1
+	anyClose := false
+	var blocked []string
+	for i, t := range snap {
+		for _, o := range t {
+			if o.c == 0 {
+				continue
+			}
+			if o.ret == 900 {
+				fail("C17:panic", fmt.Sprintf("T%d %s panicked: %s", i, lopName[o.k], lastPanic()))
+			}
+			if o.k == 1 {
+				anyClose = true
+				if o.ret >= 0 {
+					if o.ret != want {
+						fail("C17:client-close-result-differs", fmt.Sprintf("T%d Close returned %s, the socket's Close returned %s", i, lstr(o.ret), lstr(want)))
+					}
+					if firstCloseRet < 0 || o.r < firstCloseRet {
+						firstCloseRet = o.r
+					}
+				}
+			}
+			if o.ret < 0 {
+				blocked = append(blocked, fmt.Sprintf("T%d %s", i, lopName[o.k]))
+			}
+		}
+	}
+	if anyClose && len(blocked) > 0 {
+		fail("C17:client-call-not-released-by-close", "Close was called but these calls never returned: "+strings.Join(blocked, ", "))
+	}
+	if !anyClose && !p.alive && p.tmo {
+		for i, t := range snap {
+			for _, o := range t {
+				if o.c != 0 && o.ret < 0 {
+					fail("C17:handshake-timeout-not-honoured", fmt.Sprintf("T%d %s still blocked although HSTimeout=60ms and the peer is dead", i, lopName[o.k]))
+				}
+			}
+		}
+	}
+	if firstCloseRet >= 0 {
+		for i, t := range snap {
+			for _, o := range t {
+				if o.c > firstCloseRet && o.ret >= 0 && o.k != 1 && o.ret != 1 {
+					fail("C17:not-eof-after-close", fmt.Sprintf("T%d %s issued after Close had returned gave %s", i, lopName[o.k], lstr(o.ret)))
+				}
+			}
+		}
+	}
+	if runs > 1 {
+		fail("C17:handshake-ran-twice", fmt.Sprintf("clientHandshakeLocked was entered %d times", runs))
+	}
+	if c := wc.closes.Load(); c > 1 {
+		fail("C17:socket-closed-twice", fmt.Sprintf("underlyingConn.Close was called %d times", c))
+	}
+	if leaked {
+		fail("C17:client-goroutine-leak", "worker goroutines still blocked after Client.Close and Server.Close: "+strings.Join(blocked, ", "))
+	} else if goAfter > goBefore {
+		fail("C17:client-goroutine-leak", fmt.Sprintf("goroutines before=%d after=%d", goBefore, goAfter))
+	}
+
+	// ---- Coq case
+	var ths, descRes []string
+	conc := false
+	for i, t := range snap {
+		var cs []string
+		for _, o := range t {
+			if o.c == 0 {
+				continue
+			}
+			need := make([]string, n)
+			for u, tu := range snap {
+				k := 0
+				for _, ou := range tu {
+					if ou.ret >= 0 && ou.r != 0 && ou.r < o.c {
+						k++
+					}
+				}
+				need[u] = hv.Ni(k)
+			}
+			res := "None"
+			st := int64(1000000000)
+			if o.ret >= 0 {
+				res = "(Some " + hv.Ni(int(o.ret)) + ")"
+				st = o.r
+			}
+			cs = append(cs, hv.Tuple(lopCoq[o.k], res, hv.List(need), hv.Ni(int(st))))
+			descRes = append(descRes, fmt.Sprintf("T%d %s=%s[%d,%d]", i, lopName[o.k], lstr(o.ret), o.c, o.r))
+			for u, tu := range snap {
+				for _, ou := range tu {
+					if u != i && ou.c != 0 && ou.c < o.r && (ou.r == 0 || ou.r > o.c || ou.ret < 0) {
+						conc = true
+					}
+				}
+			}
+		}
+		ths = append(ths, hv.List(cs))
+	}
+	desc := p.String() + " => " + strings.Join(descRes, ", ")
+	hv.Emit(hv.Case{Fn: "c17l_ok", Coq: hv.Tuple(hv.B(p.alive), hv.B(p.tmo), hv.Ni(int(want)), hv.List(ths)),
+		Class: class, Desc: desc, Spec: v.ok, Sig: v.sig, What: v.what, NT: conc, Key: desc,
+		Replay: map[string]interface{}{"program": p.String(), "history": descRes}})
+}
+
+func runLifecycle(r *hv.Rand) {
+	logrus.SetLevel(logrus.PanicLevel)
+	logrus.SetOutput(io.Discard)
+	env, err := loadLifeEnv()
+	if err != nil {
+		hv.Emit(hv.Case{Class: "client-setup", Desc: "cannot load transport test keys: " + err.Error(), Spec: false, Sig: "C17:driver-setup", What: err.Error()})
+		return
+	}
+	// fixed shapes first: the races the lifecycle machine is about
+	fixed := []lprog{
+		{alive: false, ths: [][]lop{{{k: 0}}, {{k: 0}}, {{k: 2}}, {{k: 1}}}},               // dead peer, no timeout: only Close releases
+		{alive: false, custom: true, ths: [][]lop{{{k: 0}}, {{k: 1}}, {{k: 1}}, {{k: 1}}}}, // concurrent closers, custom result
+		{alive: true, ths: [][]lop{{{k: 0}}, {{k: 0}}, {{k: 0}}, {{k: 0}}}},                // concurrent handshakers: one handshake
+		{alive: true, custom: true, ths: [][]lop{{{k: 0}, {k: 2}}, {{k: 3}}, {{k: 1}}, {{k: 1}}}},
+		{alive: false, tmo: true, ths: [][]lop{{{k: 0}}, {{k: 0}}, {{k: 3}}}},              // handshake timeout releases all
+		{alive: true, ths: [][]lop{{{k: 1}}, {{k: 0}}, {{k: 2}}, {{k: 3}}}},
+	}
+	for _, p := range fixed {
+		for k := 0; k < hv.Scale(2, 40); k++ {
+			q := lprog{alive: p.alive, tmo: p.tmo, custom: p.custom}
+			for _, t := range p.ths {
+				nt := make([]lop, len(t))
+				for i := range t {
+					nt[i] = lop{k: t[i].k, ret: -1}
+				}
+				q.ths = append(q.ths, nt)
+			}
+			runClientProgram(env, "client-fixed", q, r)
+		}
+	}
+	for i := 0; i < hv.Scale(36, 1200); i++ {
+		runClientProgram(env, "client-random", genLprog(r), r)
+	}
+	runServerScenarios(env, r)
+}
